@@ -160,16 +160,19 @@ theorem rev_core_none (acc' : BAcct) (h : updateAndCreateRevert acc t = some (ac
       · cases hr
 
 /-- a revert was recorded: `revert` with it leads from an account that describes the state after the group to
-one that describes the state before it (`hP`: the address was in the bundle, or the bundle account is the
-`original_bundle_account` of the transition) -/
-theorem rev_core_some (hP : st5 acc.status = true ∨ Pi = Mi) (acc' : BAcct) (r : ARevert)
-    (h : updateAndCreateRevert acc t = some (acc', some r)) (b' : BAcct) (hOK : OKAcc b' Pi Ps Ri Rs)
+one that describes the state before it. The account it is applied to may describe its states relative to another
+pre-state `P'` (bundles joined by `extend`): `hdelP` — an address that did not exist at the last merge and is not in
+the bundle did not exist at `P'` either; `hwP` — a wiping revert needs the same pre-bundle slots -/
+theorem rev_core_some (Pi' : Option Info) (Ps' : Nat → Nat) (hdelP : t.prevStatus = .loadedNotExisting → Pi' = none)
+    (acc' : BAcct) (r : ARevert)
+    (h : updateAndCreateRevert acc t = some (acc', some r)) (hwP : r.wipe = true → ∀ k, Ps' k = Ps k)
+    (b' : BAcct) (hOK : OKAcc b' Pi' Ps' Ri Rs)
     (hwd : b'.status.wasDestroyed = t.status.wasDestroyed)
     (hk : t.status.wasDestroyed = false → ∀ k, ((acc.storage.get k).isSome = true ∨ (t.storage.get k).isSome = true) →
       (b'.storage.get k).isSome = true)
     (hwo : wipeOk (some b') r = true) :
-    ((b'.revert r).2 = true → Pi = none ∧ Mi = none ∧ ∀ k, Ms k = 0) ∧
-    ((b'.revert r).2 = false → OKAcc (b'.revert r).1 Pi Ps Mi Ms ∧
+    ((b'.revert r).2 = true → Pi' = none ∧ Mi = none ∧ ∀ k, Ms k = 0) ∧
+    ((b'.revert r).2 = false → OKAcc (b'.revert r).1 Pi' Ps' Mi Ms ∧
       (b'.revert r).1.status.wasDestroyed = acc.status.wasDestroyed ∧
       (acc.status.wasDestroyed = false → keysSub acc.storage (b'.revert r).1.storage)) := by
   obtain ⟨a2, r2, e1, hsem, _⟩ := merge_core acc t c Pi Ps Mi Ms Ri Rs hb hm ht hc
@@ -217,16 +220,23 @@ theorem rev_core_some (hP : st5 acc.status = true ∨ Pi = Mi) (acc' : BAcct) (r
         · simp only [hch, if_true, Option.some.injEq] at hg
           exact ⟨⟨s.orig, hg.symm⟩, hk htn k (Or.inr (by rw [hu]; rfl))⟩
         · simp only [hch, Bool.false_eq_true, if_false] at hg; cases hg
-    have hdel : r.account = .deleteIt → t.prevStatus.wasDestroyed = false → Pi = none := by
+    have hdel : r.account = .deleteIt → t.prevStatus.wasDestroyed = false → Pi' = none := by
       intro hd hpw
       have hMn : Mi = none := by have := hsem.2.2.1; rw [hd] at this; exact this
       have hhi : hasInfo t.prevStatus = false := by
         have := hm.some_iff; rw [hMn] at this; exact this.symm
-      have hl := hasInfo_false_nd _ hhi hpw
-      cases hP with
-      | inl h5 => rw [hbs, hl] at h5; cases h5
-      | inr hPM => rw [hPM]; exact hMn
-    obtain ⟨g1, g2⟩ := revert_okacc r t.prevStatus Pi Ps Mi Ms Ri Rs hsem hm b' hOK hw hfam hsh hdel
+      exact hdelP (hasInfo_false_nd _ hhi hpw)
+    have hsem' : RevSem (some r) t.prevStatus Ps' Mi Ms Ri Rs := by
+      obtain ⟨z1, z2, z3, z4, z5⟩ := hsem
+      refine ⟨z1, z2, z3, fun k => ?_, fun hh => by rw [hw] at hh; cases hh⟩
+      have := z4 k
+      rw [hw] at this ⊢
+      rw [← this]
+      unfold revSlotV
+      cases r.storage.get k with
+      | none => rfl
+      | some v => cases v <;> simp
+    obtain ⟨g1, g2⟩ := revert_okacc r t.prevStatus Pi' Ps' Mi Ms Ri Rs hsem' hm b' hOK hw hfam hsh hdel
     refine ⟨fun hf => ?_, fun hf => ?_⟩
     · obtain ⟨q1, q2⟩ := g1 hf
       exact ⟨q1, q2, hm.none_zero q2⟩
@@ -254,14 +264,15 @@ theorem rev_core_some (hP : st5 acc.status = true ∨ Pi = Mi) (acc' : BAcct) (r
       · injection hr' with hr'; rw [← hr', hw] at hw'; cases hw'
       · injection hr' with hr'; rw [← hr'] at hn; exact hn hnil.1
     obtain ⟨hps, hwr, hio, hsl, _⟩ := hsem
-    have hMP : ∀ k, Ms k = Ps k := by
+    have hMP : ∀ k, Ms k = Ps' k := by
       intro k
       have := hsl k
       rw [hnil.1, hw] at this
+      rw [hwP hw k]
       simpa [revSlotV, BMap.get] using this.symm
     have hpw : r.prevStatus.wasDestroyed = false := by rw [hps, ← hbs]; exact w2
-    have hstor : ∀ i : Option Info, StorageInv ⟨i, b'.origInfo, [], r.prevStatus⟩ Ps Ms := fun i =>
-      (storageInv_nd ⟨i, b'.origInfo, [], r.prevStatus⟩ Ps Ms hpw).mpr ⟨WF_nil, fun k => hMP k⟩
+    have hstor : ∀ i : Option Info, StorageInv ⟨i, b'.origInfo, [], r.prevStatus⟩ Ps' Ms := fun i =>
+      (storageInv_nd ⟨i, b'.origInfo, [], r.prevStatus⟩ Ps' Ms hpw).mpr ⟨WF_nil, fun k => hMP k⟩
     have hwda : r.prevStatus.wasDestroyed = acc.status.wasDestroyed := by rw [hps, ← hbs]
     rw [revert_eq, hnil.1, hnil.2]
     cases hra : r.account with
